@@ -10,6 +10,7 @@ import UnifexModel.Driver.Entries.Calc
 import UnifexModel.Driver.Entries.Cancel
 import UnifexModel.Driver.Entries.Coro
 import UnifexModel.Driver.Entries.Ctx
+import UnifexModel.Driver.Entries.EStream
 import UnifexModel.Driver.Entries.Event
 import UnifexModel.Driver.Entries.Io
 import UnifexModel.Driver.Entries.Mutex
@@ -35,6 +36,7 @@ def table : List ModelEntries :=
   , Entries.stoponrequest
   , Entries.coroEntries
   , Entries.ctxEntries
+  , Entries.estreamEntries
   , Entries.eventv1
   , Entries.autoreset
   , Entries.eventv2
